@@ -91,8 +91,12 @@ def vocabulary():
     for a, b in _M.FOLD_PAIRS[:2]:
         for op in ("==", "!=", "<=", ">"):
             v += [("S", "time", [], ("cmp", op, ("t", a))), ("S", "time", [], ("cmp", op, ("t", b)))]
+    # comparison FUNCTIONS of the operator module handed to test(func, *args): tests like any other, not comparisons against a right-hand side
+    v += [("S", "fields", [("k", "a")], ("user", 8)), ("S", "tags", [("k", "a")], ("user", 8)), ("S", "time", [], ("user", 8)), ("S", "meas", [], ("user", 8)),
+          ("S", "fields", [("k", "zz")], ("user", 8)), ("S", "fields", [("k", "a"), ("m", 5)], ("user", 8))]
     # test functions that raise on some value types: well-formedness (total test) fails, outcome "raise" is compared too
     raising = [("S", "tags", [("k", "a")], ("user", 1)), ("S", "fields", [("k", "a")], ("user", 1)), ("S", "fields", [("k", "a")], ("user", 2)),
+               ("S", "fields", [("k", "a")], ("user", 7)), ("S", "tags", [("k", "a")], ("user", 7)),
                ("S", "fields", [("k", "a")], ("user", 5)), ("S", "fields", [("k", "a")], ("user", 6))]     # bound methods of two instances of one class
     return v, raising
 
@@ -157,7 +161,7 @@ def wf(q):
     if q[3][0] != "user":
         return True
     tid = q[3][1]
-    return tid in (0, 4) or (tid == 3 and q[1] == "meas" and not q[2])
+    return tid in (0, 4, 8) or (tid == 3 and q[1] == "meas" and not q[2])
 
 
 def core(vocab):
@@ -220,6 +224,52 @@ def emit_eq_cases(path, qs, eq_pairs, hashable):
              "Definition hbad : list nat := map fst (filter (fun x => negb (Bool.eqb (is_hashable (fst (snd x))) (snd (snd x)))) (combine (seq 0 (length qs)) (combine qs hexp))).",
              "Eval vm_compute in (N.of_nat (length qs), map N.of_nat (badrows 0 model_pairs expected) ++ map (fun x => (1000000 + N.of_nat x)%N) hbad)."]
     path.write_text("\n".join(lines) + "\n")
+
+
+def derived_check(tf, qs, univ, limit=60, step=7):
+    """queries are VALUES: deriving a new query from one (`q & c`, `q | c`, `~q`, and the augmented forms `d = q; d &= c`, `e = q; e |= c`, which
+    Python defines as `d = d & c` for a class without in-place operators) leaves q - and every query that has q as an operand - meaning what it
+    meant, comparing and hashing as it did; and the derived query means AND / OR of what it was built from.  -> (failing inputs, number checked)"""
+    bad, checked = [], 0
+    terms = [("S", "tags", [("k", "a")], ("cmp", "==", ("s", "ab"))), ("S", "fields", [("k", "a")], ("cmp", ">", ("n", 0))),
+             ("S", "meas", [], ("cmp", "==", ("s", "m1"))), ("not", ("S", "tags", [("k", "b")], ("exists",)))]
+    pts = [M.real_point(tf, p) for p in univ[::max(1, len(univ) // 24)]]
+    beh = lambda rq: tuple(impl_eval(tf, rq, rp) for rp in pts)
+    picks = [q for q in qs[::step] if q[0] in ("and", "or", "not")][:limit] + [q for q in qs[::step] if q[0] == "S"][:10]
+    for k, q in enumerate(picks):
+        c, c2 = terms[k % 4], terms[(k + 1) % 4]
+        try:
+            rq, holder_and, fresh = M.real_query(tf, q, {}), None, M.real_query(tf, q, {})
+            rc, rc2 = M.real_query(tf, c, {}), M.real_query(tf, c2, {})
+        except Exception:  # noqa
+            continue
+        holder_and, holder_or, holder_not = rq & rc2, rc2 | rq, ~rq
+        before = (beh(rq), beh(holder_and), beh(holder_or), beh(holder_not))
+        try:
+            ident_before = (rq == fresh, hash(rq) if rq.is_hashable() else None)
+            d = rq
+            d &= rc
+            e = rq
+            e |= rc
+            want_d, want_e = beh(M.real_query(tf, ("and", q, c), {})), beh(M.real_query(tf, ("or", q, c), {}))
+            after = (beh(rq), beh(holder_and), beh(holder_or), beh(holder_not))
+            ident_after = (rq == fresh, hash(rq) if rq.is_hashable() else None)
+            got_d, got_e = beh(d), beh(e)
+        except Exception as ex:  # noqa
+            bad.append({"query": q, "derived_with": c, "why": f"deriving a query with &= / |= raised {type(ex).__name__}: {ex}"})
+            continue
+        checked += 1
+        why = None
+        if after != before:
+            why = "a query (or a query holding it as an operand: q & c2, c2 | q, ~q) answers differently after `d = q; d &= c; e = q; e |= c` than before"
+        elif ident_after != ident_before:
+            why = "q == <fresh equal query> or hash(q) changed after another query was derived from q with &= / |="
+        elif got_d != want_d or got_e != want_e:
+            why = "`d = q; d &= c` (or |=) does not mean what a freshly built q & c (q | c) means"
+        if why and len(bad) < 3:
+            bad.append({"query": q, "derived_with": c, "held_with": c2, "why": why, "q_before": before[0], "q_after": after[0],
+                        "holders_before": before[1:], "holders_after": after[1:], "d": got_d, "fresh_q_and_c": want_d, "e": got_e, "fresh_q_or_c": want_e})
+    return bad, checked
 
 
 def edited_point_check(tf, qs, rqs, univ, limit=400, step=3):
